@@ -166,8 +166,11 @@ pub fn gen_setup(rng: &mut Rng, i: usize, theta_lo: f64, theta_hi: f64, allow_cp
   let phi0 = if history == "none" { phi_s } else { rng.range(0.0, 2.0 * std::f64::consts::PI) };
   let theta0 = if history == "none" || history == "phi_only" { theta_s } else { rng.range(theta_lo.min(-0.05), theta_hi) };
   let signal = build_signal(pm, phi0, theta0, phi_s, theta_s, history, ls, waist_s);
-  let pump: PumpBeam = Beam::new(pm.pump_polarization(), 0. * RAD, 0. * RAD, lp * M, waist_p * M).into();
+  // one pump in three is made from a generic beam that is NOT along z: PumpBeam::from must put it on the axis
+  let (pump_phi0, pump_theta0) = if rng.below(3) == 0 { (rng.range(0.0, 6.0), rng.range(-0.3, 0.3)) } else { (0.0, 0.0) };
+  let pump: PumpBeam = Beam::new(pm.pump_polarization(), pump_phi0 * RAD, pump_theta0 * RAD, lp * M, waist_p * M).into();
   let input = json!({
+    "pump_phi0": fx(pump_phi0), "pump_theta0": fx(pump_theta0),
     "signal_phi0": fx(phi0), "signal_theta0": fx(theta0), "history": history,
     "crystal": meta.id, "pm_type": pm.to_str(), "crystal_theta": fx(c_theta), "crystal_phi": fx(c_phi),
     "temperature_c": fx(t_c), "length": fx(length), "counter_propagation": cp,
@@ -204,7 +207,9 @@ pub fn setup_from_json(input: &Value, pp: &Value) -> Option<Setup> {
     pm, g("signal_phi0").unwrap_or(g("signal_phi")?), g("signal_theta0").unwrap_or(g("signal_theta")?), g("signal_phi")?, g("signal_theta")?, history,
     g("signal_wavelength")?, g("signal_waist")?,
   );
-  let pump: PumpBeam = Beam::new(pm.pump_polarization(), 0. * RAD, 0. * RAD, g("pump_wavelength")? * M, g("pump_waist")? * M).into();
+  let pump: PumpBeam = Beam::new(
+    pm.pump_polarization(), g("pump_phi0").unwrap_or(0.0) * RAD, g("pump_theta0").unwrap_or(0.0) * RAD, g("pump_wavelength")? * M, g("pump_waist")? * M,
+  ).into();
   let ppv = if pp.get("on").and_then(|v| v.as_bool()).unwrap_or(false) {
     PeriodicPoling::On {
       period: f64_of(&pp["period"]) * M,
@@ -266,6 +271,33 @@ pub fn observe(i: usize, s: Setup, d1: f64, d2: f64) {
           "assigned_lambda": fx(met(ai.vacuum_wavelength())), "assigned_pol": format!("{:?}", ai.polarization()),
           "assigned_wx": fx(met(ai.waist().x)),
         });
+      }
+      // the JSON configuration route with "idler": "auto": the idler it installs must be try_new_optimum of its own beams
+      if i % 3 == 0 {
+        let inp = &o["input"];
+        let mut cfg = json!({
+          "crystal": {"kind": inp["crystal"], "pm_type": inp["pm_type"], "phi_deg": f64_of(&inp["crystal_phi"]).to_degrees(),
+                      "theta_deg": f64_of(&inp["crystal_theta"]).to_degrees(), "length_um": f64_of(&inp["length"]) * 1e6,
+                      "temperature_c": f64_of(&inp["temperature_c"]), "counter_propagation": inp["counter_propagation"]},
+          "pump": {"wavelength_nm": f64_of(&inp["pump_wavelength"]) * 1e9, "waist_um": f64_of(&inp["pump_waist"]) * 1e6, "bandwidth_nm": 0.5, "average_power_mw": 1.0},
+          "signal": {"wavelength_nm": f64_of(&inp["signal_wavelength"]) * 1e9, "phi_deg": f64_of(&inp["signal_phi"]).to_degrees(),
+                     "theta_deg": f64_of(&inp["signal_theta"]).to_degrees(), "waist_um": f64_of(&inp["signal_waist"]) * 1e6},
+          "idler": "auto", "deff_pm_per_volt": 1.0,
+        });
+        if let PeriodicPoling::On { period, .. } = &pp {
+          cfg["periodic_poling"] = json!({"poling_period_um": met(*period) * 1e6});
+        }
+        o["config"] = match SPDC::from_json(cfg.to_string()) {
+          Ok(spdc) => {
+            let want = IdlerBeam::try_new_optimum(&spdc.signal, &spdc.pump, &spdc.crystal_setup, &spdc.pp);
+            json!({"class": "ok", "idler_is_try_new_optimum": match &want { Ok(w) => *w == spdc.idler, Err(_) => false },
+                   "idler_wx": fx(met(spdc.idler.waist().x)), "signal_wx": fx(met(spdc.signal.waist().x)),
+                   "idler_phi": fx(rad(spdc.idler.phi())), "signal_phi": fx(rad(spdc.signal.phi())),
+                   "idler_lambda": fx(met(spdc.idler.vacuum_wavelength())), "signal_lambda": fx(met(spdc.signal.vacuum_wavelength())),
+                   "pump_lambda": fx(met(spdc.pump.vacuum_wavelength())), "idler_pol": format!("{:?}", spdc.idler.polarization())})
+          }
+          Err(e) => json!({"class": "err", "error": e.to_string()}),
+        };
       }
       o
     });
